@@ -91,6 +91,8 @@ def describe(rec, cfg, sht=None):
         return promolecule_density_descriptor(sht, els, pos, with_property=ch)
     if rec["kind"] == "molecule":
         return Molecule.from_arrays(els, pos).shape_descriptors(l_max=rec["lmax"], with_property=ch)
+    if rec["kind"] == "mol-atomic":
+        return Molecule.from_arrays(els, pos).atomic_shape_descriptors(l_max=rec["lmax"])      # one row per atom
     ne, pe = arrays(cfg["outer"])
     return stockholder_weight_descriptor(sht, els, pos, ne, pe, with_property=ch, bounds=tuple(rec["bounds"]))
 
@@ -232,18 +234,22 @@ def drive(rec):
     shared = _SHT(rec["lmax"]) if rec.get("share_sht", True) else None
     for w in [[]] + rec["words"]:
         cfg = apply_word(base, w)
-        ps = {"word": w, "inner": cfg["inner"], "outer": cfg["outer"], "exc": "", "d": []}
+        ps = {"word": w, "inner": cfg["inner"], "outer": cfg["outer"], "exc": "", "d": [], "rows": []}
         try:
             d = np.asarray(describe(rec, cfg, shared), dtype=float)
             if ref is None:
                 ref = float(np.max(np.abs(d)))
-            ps["d"] = [int(round(float(x) / ref * 1048576)) if abs(x) / ref < 1000 else 2 ** 30 for x in d]
+            if d.ndim == 2:
+                ps["rows"] = [[int(round(float(x) / ref * 1048576)) if abs(x) / ref < 1000 else 2 ** 30 for x in row] for row in d]
+                ps["d"] = ps["rows"][0]
+            else:
+                ps["d"] = [int(round(float(x) / ref * 1048576)) if abs(x) / ref < 1000 else 2 ** 30 for x in d]
         except Exception as e:
             ps["exc"] = type(e).__name__
         t["poses"].append(ps)
         if ref is None:
             break
-    if ref is not None:
+    if ref is not None and rec["kind"] != "mol-atomic":
         try:
             t["radial"], field, o, g, iso = radial_samples(rec, base)
             # probes whose bounds cannot contain the surface
@@ -352,6 +358,14 @@ def run(ctx):
                     recs.append({"lmax": lmax, "kind": kind, "channel": channel, "words": ws,
                                  "base": {"inner": inner, "outer": outer if kind == "stockholder" else []},
                                  "bounds": [0.15, 9.0], "probes": [[0.02, 0.12], [14.0, 19.0]] if kind != "stockholder" else []})
+    # the atoms of an isolated molecule (Molecule.atomic_shape_descriptors: one row per atom, rows follow the atom order)
+    for mi, inner in enumerate(mols):
+        for lmax in ctx.pick([4, 6], [4, 5, 6, 8]):
+            pool = [w for w in words if "E:" not in w]
+            ws = [parse_word(w) for w in rng.sample(pool, min(len(pool), ctx.pick(4, 20)))]
+            ws = [w for w in ws if all(not (tag == "P" and arg >= len(inner)) for tag, arg in w)]
+            recs.append({"lmax": lmax, "kind": "mol-atomic", "channel": "none", "words": ws, "base": {"inner": inner, "outer": []},
+                         "bounds": [0.2, 6.0], "probes": []})
     # molecules and atoms in their crystal: the descriptors belong to the arrangement, not to how the cell is listed
     cwords = [[["S", 1]], [["S", 3]], [["P", 1]], [["X", 1]], [["X", 3]], [["S", 2], ["P", 2]], [["X", 2], ["S", 4]], [["P", 1], ["X", 1]]]
     for i in range(ctx.pick(6, 60)):
